@@ -242,6 +242,11 @@ func runSeq(c core.Case, prop string, reopen bool) core.Result {
 	os.RemoveAll(d.dir)
 	defer os.RemoveAll(d.dir)
 	d.cfg = gen.Config(r)
+	if reopen && c.Str("delay", "") == "slow-flusher" {
+		// Close with several memtables still waiting IN the flush queue needs room in the queue
+		d.cfg.ImmutableBuffer = []int{2, 4, 8}[r.Intn(3)]
+		d.cfg.MemtableByteThreshold = []int{1, 64, 300}[r.Intn(3)]
+	}
 	profile := c.Str("keys", "hostile")
 	nkeys := 3 + r.Intn(10)
 	ntx := int(c.Int("txns", 100))
@@ -286,6 +291,9 @@ func runSeq(c core.Case, prop string, reopen bool) core.Result {
 		// every parameter but the level geometry may change between incarnations
 		nc := gen.Config(r)
 		nc.L0TargetNum, nc.LevelRatio = d.cfg.L0TargetNum, d.cfg.LevelRatio
+		if d.c.Str("delay", "") == "slow-flusher" {
+			nc.ImmutableBuffer, nc.MemtableByteThreshold = d.cfg.ImmutableBuffer, d.cfg.MemtableByteThreshold
+		}
 		if r.Intn(3) == 0 {
 			nc = d.cfg
 		}
@@ -402,7 +410,7 @@ func runSeq(c core.Case, prop string, reopen bool) core.Result {
 				// a burst of commits without reads in between, then Close at once: several rotated
 				// memtables are still queued (or being flushed) when Close starts
 				okBurst := true
-				for b := 0; b < 3+r.Intn(4) && okBurst; b++ {
+				for b := 0; b < 4+r.Intn(8) && okBurst; b++ {
 					bw := d.genWrites(window, false)
 					d.logf("commit{%s}", descWrites(bw))
 					okBurst = d.commit(bw)
